@@ -187,7 +187,29 @@ class SchemaGen:
 
 	def conditional_struct(self):
 		name = self.fresh('Cond')
-		if (self.rng.random() < 0.5) if self.variant is None else (0 == self.variant % 2):
+		shape = self.rng.randrange(4) if self.variant is None else self.variant % 4
+		if shape >= 2:
+			# two unions, each placed before its own discriminant. shape 2: both are pending at the same time (second union starts before
+			# the first discriminant is reached; discriminants in either order); shape 3: one after the other
+			first_enum, first_members = self.two_member_enum()
+			second_enum, second_members = self.two_member_enum()
+			aliases = []
+			for _ in range(4):
+				alias = self.fresh('Wide')
+				self.emit(f'using {alias} = uint64')
+				aliases.append(alias)
+			first_union = [f'\tarm0 = {aliases[0]} if {first_members[0][0]} equals kind', f'\tarm1 = {aliases[1]} if {first_members[1][0]} equals kind']
+			second_union = [f'\tarm2 = {aliases[2]} if {second_members[0][0]} equals mode', f'\tarm3 = {aliases[3]} if {second_members[1][0]} equals mode']
+			kind_line, mode_line = f'\tkind = {first_enum}', f'\tmode = {second_enum}'
+			lines = [f'struct {name}']
+			if 2 == shape:
+				lines += first_union + second_union + [f'\tmiddle = {self.rng.choice(INT_TYPES)}']
+				lines += [kind_line, mode_line] if self.rng.random() < 0.5 else [mode_line, kind_line]
+				self.features.add('two-unions-pending-together')
+			else:
+				lines += first_union + [kind_line] + second_union + [mode_line]
+				self.features.add('two-unions-one-after-the-other')
+		elif 0 == shape:
 			# discriminant first
 			plain = [entry for entry in self.enums if not entry[2]]
 			if plain:
